@@ -112,7 +112,28 @@ def gen_case(r) -> dict:
     for _ in range(r.choice([0, 0, 1, 2])):
         _app_counter[0] += 1
         case["apps"].append({"pkg": f"c20app{_app_counter[0]}", "tree": gen_tree(r)})
+    # how the directory is spelled in settings: the same directory written un-normalised is the same directory
+    # (drawn from a generator of its own so that the trees of earlier runs stay the same)
+    r2 = core.rng(PROP, "spell", r.random())
+    case["spell"] = [r2.choice(["plain", "plain", "dotdot", "dot", "slash", "Path", "dotdot-Path"]) for _ in case["dirs"]]
     return case
+
+
+def spelled(base: str, root: str, how: str):
+    """`root` (absolute, normalised, below `base`) written the way a settings file might write it"""
+    from pathlib import Path
+
+    rel = os.path.relpath(root, base)
+    if how.startswith("dotdot"):
+        os.makedirs(os.path.join(base, "_cfg"), exist_ok=True)
+        p = os.path.join(base, "_cfg", "..", rel)
+    elif how == "dot":
+        p = os.path.join(base, ".", rel)
+    elif how == "slash":
+        p = root + "/"
+    else:
+        p = root
+    return Path(p) if how.endswith("Path") else p
 
 
 def run_case(case: dict) -> Tuple[Any, List[dict], Any]:
@@ -149,12 +170,13 @@ def run_case(case: dict) -> Tuple[Any, List[dict], Any]:
         importlib.invalidate_caches()
         comps: Dict[str, Any] = {"autodiscover": False, "app_dirs": ["components"]}
         extra: Dict[str, Any] = {"BASE_DIR": base, "INSTALLED_APPS": installed, "STATICFILES_DIRS": []}
+        cfg_paths = [spelled(base, p, how) for p, how in zip(dir_paths, case.get("spell") or ["plain"] * len(dir_paths))]
         if case["mode"] == "legacy":
-            extra["STATICFILES_DIRS"] = dir_paths
+            extra["STATICFILES_DIRS"] = cfg_paths
         elif case["mode"] == "legacy-tuple":
-            extra["STATICFILES_DIRS"] = [("pfx", p) for p in dir_paths]
+            extra["STATICFILES_DIRS"] = [("pfx", p) for p in cfg_paths]
         else:
-            comps["dirs"] = dir_paths
+            comps["dirs"] = cfg_paths
         impl: Any
         with override_settings(COMPONENTS=comps, **extra):
             try:
@@ -244,7 +266,7 @@ def run(tier: str) -> int:
         for rep in mine:
             if "error" in rep:
                 raise core.InfraError(f"driver: {rep['error']}")
-        shown = {"mode": case["mode"], "suffix": case["suffix"], "dirs": case["dirs"], "apps": case["apps"]}
+        shown = {"mode": case["mode"], "suffix": case["suffix"], "dirs": case["dirs"], "apps": case["apps"], "spell": case.get("spell")}
         if not isinstance(impl, list):
             ch.violation("impl-violates-spec", "tree", shown, impl=impl, spec="get_component_files raised")
             break
